@@ -59,6 +59,9 @@ type vfClientScript struct {
 	Order     string            `json:"order"`       // immediate | reverse-pairs | at-end
 	Probe     bool              `json:"probe"`       // connect to host:port and record the identity line a script-server sends
 	ProbeDial bool              `json:"probeDial"`   // only check that host:port accepts TCP connections
+	// CloseStdoutAfter > 0: after that many answers the client closes its output and answers nothing any more, but keeps
+	// reading (and discarding) requests until its input ends, then exits with ExitCode
+	CloseStdoutAfter int `json:"closeStdoutAfter,omitempty"`
 }
 
 type vfPeerEvent struct {
@@ -299,6 +302,9 @@ func vfPeerClientMain() int {
 				}
 			}
 		}
+		if script.CloseStdoutAfter > 0 && answers >= script.CloseStdoutAfter {
+			continue // output is closed: the request is read and dropped
+		}
 		answers++
 		var frame bytes.Buffer
 		if script.Garbage == answers {
@@ -320,6 +326,11 @@ func vfPeerClientMain() int {
 		default:
 			_, _ = out.Write(frame.Bytes())
 			_ = out.Flush()
+		}
+		if script.CloseStdoutAfter > 0 && answers >= script.CloseStdoutAfter {
+			flushHeld()
+			_ = os.Stdout.Close()
+			vfPeerLog(vfPeerEvent{Event: "client-stdout-closed"})
 		}
 	}
 	flushHeld()
